@@ -3838,19 +3838,27 @@ impl GlobalInferenceCtx<'_> {
                     return Ok(Err(ArgsContainDiagnostics));
                 }
 
-                let res = self
+                let Some(res) = self
                     .const_data(self.loc, *arg)
                     // the only reason const_data would return an Err
                     // is because of is_safe_to_compile, but we already called
                     // all of them.
                     .expect("is_safe_to_compile was done beforehand")
-                    .unwrap_or_else(|| {
-                        panic!(
-                            "@{} expr #{} didn't work",
-                            self.loc.debug(self.interner),
-                            arg.into_raw()
-                        )
+                else {
+                    // the argument is constant, but it is a kind of constant that can't be
+                    // evaluated at compile-time yet (e.g. a `bool` or `str` literal)
+                    self.diagnostics.push(TyDiagnostic {
+                        kind: TyDiagnosticKind::ComptimeArgNotConst {
+                            param_name: param.name.unwrap().0,
+                            param_ty,
+                        },
+                        file: self.loc.file(),
+                        range: self.bodies.range_for_expr(*arg),
+                        expr: Some(*arg),
+                        help: None,
                     });
+                    return Ok(Err(ArgsContainDiagnostics));
+                };
                 let res = self.generics_arena.alloc(res);
 
                 self.inline_comptime_args.push(res);
